@@ -477,13 +477,13 @@ func framedSequences(n int) int {
 		frame(fmt.Sprintf("Content-Length: %d\r\nContent-Type: application/vscode-jsonrpc; charset=utf-8\r\n", len(body2)), body2),
 		frame("Content-Type: x\r\n", body2), // no Content-Length
 		frame("", body1),                    // empty header block
-		frame(fmt.Sprintf("content-length: %d\r\n", len(body1)), body1),      // wrong case: not the header
-		frame(fmt.Sprintf("Content-Length: %d\r\n", len(body1)+5), body1),    // length beyond the body
-		frame(fmt.Sprintf("Content-Length: %d\r\n", len(body2)), body2)[:30], // truncated
-		frame(fmt.Sprintf("Content-Length: %d\r\n", len(body1)+3), body1+"xxx"),              // a JSON value followed by garbage, all inside the announced length
-		frame(fmt.Sprintf("Content-Length: %d\r\n", len(body1)+len(body2)), body1+body2),     // two JSON values in one frame
-		frame(fmt.Sprintf("Content-Length: %d\r\n", len(body2)+2), body2+"}]"),               // a JSON value followed by closing brackets
-		frame(fmt.Sprintf("Content-Length: %d\r\n", len(body1)+2), " "+body1+"\n"),           // surrounded by white space: still one value
+		frame(fmt.Sprintf("content-length: %d\r\n", len(body1)), body1),                  // wrong case: not the header
+		frame(fmt.Sprintf("Content-Length: %d\r\n", len(body1)+5), body1),                // length beyond the body
+		frame(fmt.Sprintf("Content-Length: %d\r\n", len(body2)), body2)[:30],             // truncated
+		frame(fmt.Sprintf("Content-Length: %d\r\n", len(body1)+3), body1+"xxx"),          // a JSON value followed by garbage, all inside the announced length
+		frame(fmt.Sprintf("Content-Length: %d\r\n", len(body1)+len(body2)), body1+body2), // two JSON values in one frame
+		frame(fmt.Sprintf("Content-Length: %d\r\n", len(body2)+2), body2+"}]"),           // a JSON value followed by closing brackets
+		frame(fmt.Sprintf("Content-Length: %d\r\n", len(body1)+2), " "+body1+"\n"),       // surrounded by white space: still one value
 	}
 	count := 0
 	vlib.Seqs([]string{"0", "1", "2", "3", "4", "5", "6", "7", "8", "9", "10"}, n, func(_ string, idx []int) bool {
@@ -1088,7 +1088,7 @@ func main() {
 	execs, points, states := 0, 0, 0
 	var per []map[string]any
 	for _, sc := range scenarios {
-		st := vsched.Explore(vsched.ExploreConfig{Opts: vsched.Options{MaxSteps: 6000}, Bound: bound, Deadline: deadline, MaxExecutions: run.Pick(300000, 6000000), StateCaching: os.Getenv("VERIF_NO_CACHE") == ""}, sc.build)
+		st := vsched.Explore(vsched.ExploreConfig{Opts: vsched.Options{MaxSteps: 6000}, Bound: bound, Deadline: deadline, GuaranteedBound: 1, MaxExecutions: run.Pick(300000, 6000000), StateCaching: os.Getenv("VERIF_NO_CACHE") == ""}, sc.build)
 		if st.Diverged != "" {
 			vlib.Fatal("scenario %q: %s", sc.name, st.Diverged)
 		}
